@@ -166,7 +166,9 @@ class UCCGD(Ansatz):
         qubit_op = self._get_qubit_operator()
         qu_op_dict = qubit_op.terms
 
-        if set(qu_op_dict) != set(self.qu_op_dict):
+        # The circuit is a product of exponentials in the order of the terms: rebuild unless the terms are the same
+        # and come in the same order as when the circuit was built (the order can depend on the parameter values).
+        if list(qu_op_dict) != list(self.qu_op_dict):
             self.build_circuit(var_params)
         else:
             for i, (term, _) in enumerate(self.pauli_order):
